@@ -21,6 +21,8 @@ if __name__ == '__main__':
           bound='all truncations of a valid 3-chunk body + 8 malformed streams, 2 s time limit each')
     c.run('C13.provider_paths', 'B', wrap(replays_C13.provider_paths, 13), replay_fn='C13:provider_paths',
           bound='13 unusual request paths (percent-encoded non-latin-1, CR/LF, NUL, surplus / empty segments) with a valid GetMdib body against a real provider')
+    c.run('C13.open_connection_framing', 'B', wrap(replays_C13.open_connection_framing, 8), replay_fn='C13:open_connection_framing',
+          bound='8 malformed / absent length framings (negative, signed, empty, duplicate Content-Length, none) sent over a connection the client keeps open, 4 s limit each, real provider')
     from native import C09_native
     c.run('C13.full_operation_queue', 'B', C09_native.full_queue,
           bound='one set-request against a full operation worker queue (10 entries), 4 s limit')
